@@ -589,6 +589,9 @@ package allocator
 //@   ensures [complete] result1 != nil && old(PoolsDisjoint(a.pools.ByName)) && old(Listed(a, svc, pools)) && FamPolicyOK(serviceIPFamily, old(ipPolicyForServiceSpec(svc))) ==>
 //@       (forall i int :: 0 <= i && i < len(pools) ==> !old(CanSatisfy(a, pools[i], serviceIPFamily, ipPolicyForServiceSpec(svc), svcKey, ports, sharingKey, backendKey)))
 //@   readonly when result1 != nil
+//@   assert before Assign: [ipsFrom] forall k int :: 0 <= k && k < len(ips) ==> (ips[k] == poolIps.IPV4 && poolIps.IPV4 != nil) || (ips[k] == poolIps.IPV6 && poolIps.IPV6 != nil)
+//@   assert before Assign: [shar0] (poolIps.IPV4 != nil ==> Sharable(a, svcKey, net.ipstr(poolIps.IPV4), ports, sharingKey, backendKey))
+//@       && (poolIps.IPV6 != nil ==> Sharable(a, svcKey, net.ipstr(poolIps.IPV6), ports, sharingKey, backendKey))
 //@   assert before Assign: [allIn] exists i int :: 0 <= i && i < len(pools) && AllInPool(pools[i], ips)
 //@   assert before Assign: [shar] forall k int :: 0 <= k && k < len(ips) ==> Sharable(a, svcKey, net.ipstr(ips[k]), ports, sharingKey, backendKey)
 //@   assert before Assign: [fam] len(ips) >= 1 && len(ips) <= 2 && (len(ips) == 2 ==> net.is4(ips[0]) != net.is4(ips[1]))
@@ -604,6 +607,8 @@ package allocator
 //@   assert before Assign: [first0] let full := !(serviceIPFamily == ipfamily.DualStack && len(ips) == 1) in let prim := (net.is4(ips[0]) == Prim4(svc)) in
 //@       (exists i int :: 0 <= i && i < len(pools) && FromPool(a, poolIps, pools[i], svcKey, ports, sharingKey, backendKey)
 //@       && old(FirstChoice(a, pools, i, full, prim, serviceIPFamily, Prim4(svc), svcKey, ports, sharingKey, backendKey)))
+//@   assert before Assign: [inC0] forall i int :: 0 <= i && i < len(pools) && FromPool(a, poolIps, pools[i], svcKey, ports, sharingKey, backendKey) ==>
+//@       (poolIps.IPV4 != nil ==> InCIDRs(pools[i], poolIps.IPV4)) && (poolIps.IPV6 != nil ==> InCIDRs(pools[i], poolIps.IPV6))
 //@   assert before Assign: [inC] forall i int, k int :: 0 <= i && i < len(pools) && FromPool(a, poolIps, pools[i], svcKey, ports, sharingKey, backendKey) && 0 <= k && k < len(ips) ==> InCIDRs(pools[i], ips[k])
 //@   assert before Assign: [first1] let full := !(serviceIPFamily == ipfamily.DualStack && len(ips) == 1) in let prim := (net.is4(ips[0]) == Prim4(svc)) in
 //@       (exists i int :: 0 <= i && i < len(pools) && (forall k int :: 0 <= k && k < len(ips) ==> InCIDRs(pools[i], ips[k]))
